@@ -73,7 +73,6 @@ def mutable_cases(tier):
 
 def run(tier, seed):
     ck = Check("C20", tier, seed)
-    ck.preds["c20_clipped_column_major"] = clipped_column_major
     quick = tier == "quick"
     drv = vlib.build_driver("drv_ndarray")
     total = 0
